@@ -15,7 +15,7 @@ spec/SCHED_TRACE.md "DRA"):
 from checks import sched_common as sc
 
 KIND = {  # kind -> (class/driver, count, capacity request)
-    "net": ("net", 1, 0), "net2": ("net", 2, 0), "shm2": ("shm", 1, 2), "shm3": ("shm", 1, 3), "gpu": ("gpu", 1, 0), "tshm": ("tshm", 1, 3),
+    "net": ("net", 1, 0), "net2": ("net", 2, 0), "shm1": ("shm", 1, 1), "shm2": ("shm", 1, 2), "shm3": ("shm", 1, 3), "gpu": ("gpu", 1, 0), "tshm": ("tshm", 1, 3),
     "gpu2": ("gpu", 2, 0), "shm": ("shm", 1, 0), "gpuall": ("gpu", 0, 0), "netall": ("net", 0, 0),
     # FirstAvailable: the first alternative, else the second (ALT) - instance types of one NodeClaim may settle on different alternatives
     "fa-gpu2-gpu": ("gpu", 2, 0), "fa-gpu2-net": ("gpu", 2, 0), "fa-net2-gpu": ("net", 2, 0), "fa-shm3-tshm": ("shm", 1, 3),
@@ -53,7 +53,7 @@ OPTS = {"preference": "Respect", "minValues": "Strict", "reserved": "strict", "w
 SIZES = {0: [400, 400, 400, 400], 1: [900, 900, 900, 900], 2: [1700, 1700, 1700, 1700], 3: [1500, 400, 900, 400], 4: [600, 600, 600, 600]}
 
 
-def from_world(world, variant, name):
+def from_world(world, variant, name, reverse=False):
     d = {"classes": classes({"net", "shm", "gpu", "tshm"}),
          "slices": [dict(s, access="all", zone="", node="") for s in world["slices"]],
          "templates": world["templates"], "claims": [], "podClaims": []}
@@ -72,6 +72,8 @@ def from_world(world, variant, name):
         pods.append(bd)
         d["podClaims"].append({"pod": "default/bd", "claims": held})
     live = [c for c in live if c["name"] not in held]
+    if reverse:     # the model's kind multisets are ordered: also hand the claims to the pods in the opposite order
+        live = live[::-1]
     sizes = SIZES[variant]
     i = 0
     while i < len(live):
@@ -177,7 +179,9 @@ def explore_dra(rng, name="d"):
         claims.append(claim("pc-net", "net", [{"driver": "net", "pool": "np", "device": "n0", "consumed": 0}]))
     if shared and rng.random() < 0.3:
         claims.append(claim("pc-shm", "shm2", [{"driver": "shm", "pool": "sp", "device": "m0", "consumed": rng.choice([2, 3])}]))
-    kinds = ["gpu", "gpu", "gpu2"] + (["net", "net", "net2"] if nnet else []) + (["shm2", "shm3", "shm3", "shm"] if shared else []) + ["tshm"]
+    kinds = ["gpu", "gpu", "gpu2"] + (["net", "net", "net2"] if nnet else []) + (["shm1", "shm2", "shm3", "shm3", "shm"] if shared else []) + ["tshm"]
+    if shared and rng.random() < 0.25:      # capacity stress: mostly shares of the shared device
+        kinds = ["shm1", "shm1", "shm2", "shm2", "shm3", "shm3", "gpu"]
     if rng.random() < 0.12:
         kinds += ["gpuall"] + (["netall"] if nnet else [])
     if rng.random() < 0.25:
